@@ -1,8 +1,8 @@
 (* Props/C01.v -- statements claimed for C01 (stiffness matrix = exact PL Dirichlet form),
    about Model/Fem.v at exact real arithmetic.  Only statements closed by [exact]. *)
-From Coq Require Import List Reals.
+From Coq Require Import Permutation List Reals.
 From LaPyV Require Import Base.Scalar Base.Vec3 Base.ListAux Base.Sparse Model.TetMesh Model.Fem
-  Proofs.SparseP Proofs.TetMeshP Proofs.FemTriaP Proofs.FemTetP Proofs.FemAnisoP.
+  Proofs.SparseP Proofs.TetMeshP Proofs.FemTriaP Proofs.FemTetP Proofs.FemAnisoP Proofs.FemInvarP.
 Import ListNotations.
 Open Scope R_scope.
 
@@ -121,3 +121,18 @@ Print Assumptions C01_aniso_energy_le_isotropic_elementwise.
 Theorem C01_nondegenerate_mesh_exists : tria_nondeg [(0, 0, 0); (1, 0, 0); (0, 1, 0)] [(0, 1, 2)%nat].
 Proof. exact tria_nondeg_example. Qed.
 Print Assumptions C01_nondegenerate_mesh_exists.
+
+(* ---- invariance under the way the mesh is written down: any of the six orders of the three indices of each triangle
+   (cyclic rotations and flips of the winding) ... *)
+Theorem C01_stiffness_invariant_under_rotation_and_flip_of_index_triples : forall v ts ts' f g,
+  tria_nondeg v ts -> Forall2 variant ts ts' ->
+  tria_nondeg v ts' /\ bil f (fem_tria_A Rops v ts') g = bil f (fem_tria_A Rops v ts) g.
+Proof. exact stiffness_form_invariant_under_index_order. Qed.
+Print Assumptions C01_stiffness_invariant_under_rotation_and_flip_of_index_triples.
+
+(* ... and any reordering of the triangles *)
+Theorem C01_stiffness_invariant_under_element_reordering : forall v ts ts' f g,
+  tria_nondeg v ts -> Permutation ts ts' ->
+  tria_nondeg v ts' /\ bil f (fem_tria_A Rops v ts') g = bil f (fem_tria_A Rops v ts) g.
+Proof. exact stiffness_form_invariant_under_element_order. Qed.
+Print Assumptions C01_stiffness_invariant_under_element_reordering.
